@@ -461,6 +461,57 @@ func hangMonitor(hangWall, slowWall int, emit func(wline)) {
 	}
 }
 
+// HangProbe applies the "blocked" arm of the logical hang criterion once, on demand, to the
+// calling process: two goroutine-dump samples gap apart must show the same arrai goroutines in
+// the same blocked frames, and the process must have used next to no CPU in between. It
+// returns nil when the criterion is not met (work is still going on => not a hang). A check
+// that can tell by itself that a case is not making progress calls this instead of waiting
+// for the process-level monitor (which kills the worker). prefer, if non-empty, selects the
+// goroutine whose stack contains it as the reported site.
+func HangProbe(gap time.Duration, prefer string) *HangInfo {
+	hi, why := hangProbe(gap, prefer)
+	if hi == nil && os.Getenv("VERIF_HANGPROBE_DEBUG") != "" {
+		fmt.Fprintln(os.Stderr, "HangProbe: criterion not met:", why)
+	}
+	return hi
+}
+
+func hangProbe(gap time.Duration, prefer string) (*HangInfo, string) {
+	if gap < time.Second {
+		gap = time.Second
+	}
+	s0 := arraiGoroutines(dumpAll())
+	cpu0 := procCPU() // after the first dump: taking a dump is itself CPU work
+	time.Sleep(gap)
+	cpu1 := procCPU()
+	s1 := arraiGoroutines(dumpAll())
+	if len(s0) != len(s1) || len(s0) == 0 {
+		return nil, fmt.Sprintf("goroutine sets differ (%d vs %d arrai goroutines)", len(s0), len(s1))
+	}
+	for i := range s0 {
+		if s0[i].id != s1[i].id || s0[i].frames != s1[i].frames {
+			return nil, "goroutine " + s1[i].id + " moved: " + clip(s0[i].frames, 300) + " => " + clip(s1[i].frames, 300)
+		}
+		if !blockedStates[s1[i].state] || !blockedStates[s0[i].state] {
+			return nil, "goroutine " + s1[i].id + " is not blocked: [" + s0[i].state + "]/[" + s1[i].state + "] " + clip(s1[i].frames, 300)
+		}
+	}
+	cpuDelta := cpu1 - cpu0
+	if lim := int64(75*time.Millisecond) * int64(gap) / int64(1500*time.Millisecond); cpuDelta >= lim {
+		return nil, fmt.Sprintf("process used %d ms CPU in %v (limit %d ms)", cpuDelta/1e6, gap, lim/1e6)
+	}
+	g := s1[0]
+	if prefer != "" {
+		for _, c := range s1 {
+			if strings.Contains(c.frames, prefer) {
+				g = c
+				break
+			}
+		}
+	}
+	return &HangInfo{Kind: "blocked", Site: g.site, State: g.state, Stack: clip(g.frames, 2000), CPUms: cpuDelta / 1e6}, ""
+}
+
 func clip(s string, n int) string {
 	if len(s) > n {
 		return s[:n]
